@@ -12,6 +12,8 @@ pub struct Profile {
     /// probability (percent) that a scripted outcome is not plain Ok
     pub fault_pct: u32,
     pub panics: bool,
+    /// scripts may make a Manager::detach call of a get() panic
+    pub panics_in_detach: bool,
     pub gates: bool,
     pub nevers: bool,
     pub steps: (usize, usize),
@@ -42,6 +44,7 @@ impl Profile {
             hooks_max: 2,
             fault_pct: 35,
             panics: true,
+            panics_in_detach: false,
             gates: true,
             nevers: true,
             steps: (1, 30),
@@ -138,13 +141,15 @@ pub fn script(p: &Profile, c: &Cfg) -> BoxedStrategy<Script> {
         vv(c.post_create.len(), 8),
         vv(c.pre_recycle.len(), 8),
         vv(c.post_recycle.len(), 8),
+        if p.panics_in_detach { prop::option::weighted(0.15, 0u8..3).boxed() } else { Just(None).boxed() },
     )
-        .prop_map(|(create, recycle, post_create, pre_recycle, post_recycle)| Script {
+        .prop_map(|(create, recycle, post_create, pre_recycle, post_recycle, detach_panic_at)| Script {
             create,
             recycle,
             post_create,
             pre_recycle,
             post_recycle,
+            detach_panic_at,
         })
         .boxed()
 }
@@ -221,6 +226,7 @@ pub fn profile_for(prop: &str, thorough: bool) -> Profile {
     match prop {
         "C01" => {}
         "C02" => {
+            p.panics_in_detach = true;
             p.fault_pct = 45;
             p.w_get = 14;
             p.w_cancel = 6;
